@@ -131,6 +131,46 @@ def _r9(ctx):
                                  "stored into it are truncated, so integer and float arguments give different results" %
                                  (norm_text(c)[:70], norm_text(c.args[0])))
     ctx.holds(ci.key, None, "%d array construction(s) shaped like an input in WoehlerCurve, each with a floating element type" % n)
+    # arrays that receive element-wise stores: one built from a curve column the user gave (k_1, k_2, TN, TS are passed on as
+    # given; SD, ND, failure_probability are re-computed as floats by the transformation) keeps that column's element type - for
+    # an integer k_1 column the k_2 values stored into it are truncated
+    tr = prog.lookup_method(ci, "transform_to_failure_probability")
+    recomputed = set()
+    if tr is not None:
+        for st in walk_function(tr.node):
+            if isinstance(st, ast.Assign):
+                for t in st.targets:
+                    if isinstance(t, ast.Subscript) and isinstance(const_value(t.slice), str):
+                        recomputed.add(const_value(t.slice))
+    m = 0
+    for name, defs in ci.methods.items():
+        fi = defs[-1]
+        stores = [st for st in walk_function(fi.node) if isinstance(st, ast.Assign) and isinstance(st.targets[0], ast.Subscript) and
+                  isinstance(st.targets[0].value, ast.Name) and not isinstance(const_value(st.targets[0].slice), str)]
+        for st in stores:
+            arr = st.targets[0].value.id
+            ds = [d for d in walk_function(fi.node) if isinstance(d, ast.Assign) and any(isinstance(t, ast.Name) and t.id == arr
+                                                                                         for t in d.targets)]
+            for d in ds:
+                cols = sorted({(x.attr if isinstance(x, ast.Attribute) else const_value(x.slice))
+                               for x in ast.walk(d.value)
+                               if (isinstance(x, ast.Attribute) and isinstance(x.value, ast.Name) and x.attr in
+                                   ("k_1", "k_2", "TN", "TS", "SD", "ND")) or
+                               (isinstance(x, ast.Subscript) and const_value(x.slice) in ("k_1", "k_2", "TN", "TS", "SD", "ND"))})
+                given = [c_ for c_ in cols if c_ not in recomputed]
+                if not given:
+                    continue
+                m += 1
+                if _float_normalised(prog, fi, d.value):
+                    ctx.holds(fi, d, "%s: array %s built from the given column %s is converted to float before values are stored "
+                              "into it" % (name, arr, "/".join(given)))
+                else:
+                    ctx.violated(fi, d, "%s: %s = %s keeps the element type of the column %s as the user gave it; %s stores other "
+                                 "values into it, which are truncated for an integer column (k_1 = 5 given as integer: k_2 = 7.5 "
+                                 "becomes 7)" % (name, arr, norm_text(d.value)[:50], "/".join(given), norm_text(st)[:40]),
+                                 text="given column %s not float in %s" % ("/".join(given), name))
+    if m == 0:
+        raise AnalysisError("no array built from a given curve column receives stores (the slope selection changed shape)")
 
 
 def _r10(ctx):
@@ -870,6 +910,26 @@ UF = "src/pylife/utils/functions.py"
 
 def variants():
     out = []
+
+    def int_slopes(tree):
+        f = find_func(tree, "WoehlerCurve._make_k")
+        for st in f.body:
+            if isinstance(st, ast.Assign) and isinstance(st.targets[0], ast.Name) and st.targets[0].id == "k" and \
+                    isinstance(st.value, ast.Call):
+                st.value = parse_expr("np.asarray(wc.k_1).copy()")
+                return True
+        return False
+    out.append(witness("slope array keeps the element type of the given k_1 column", "src/pylife/materiallaws/woehlercurve.py", int_slopes, "R-C08-9"))
+
+    def astype_slopes(tree):
+        f = find_func(tree, "WoehlerCurve._make_k")
+        for st in f.body:
+            if isinstance(st, ast.Assign) and isinstance(st.targets[0], ast.Name) and st.targets[0].id == "k" and \
+                    isinstance(st.value, ast.Call):
+                st.value = parse_expr("np.asarray(wc.k_1).astype(np.float64)")
+                return True
+        return False
+    out.append(twin("slope array converted with astype", "src/pylife/materiallaws/woehlercurve.py", astype_slopes))
 
     def skip_transform_at_default(tree):
         f = find_func(tree, "WoehlerCurve.basquin_cycles")
